@@ -409,3 +409,72 @@ def s5(I):
         I.check('at_most_max_concurrent_unexpired', len(ms.entries) <= _BIG)
         return
     I.cover('limit_holds')
+
+
+# ---------------------------------------------------------------- limits between the listing's default page (10) and its maximum (100)
+
+_LIMITS = [12, 11, 37, 100]
+_S6_KINDS = ['full', 'one_below', 'full_last_expired']
+
+
+def _s6_farms(n, kind, ep):
+    cnt = n - 1 if kind == 'one_below' else n
+    farms = []
+    for k in range(cnt):
+        if kind == 'full_last_expired' and k == cnt - 1:
+            farms.append(('m-%03d' % k, 'owner2', LP1, 'uusd', 10, 0, 1, ep - 60, ep - 50))      # ended 50 epochs ago: expired (expiration ~ 30.4 days)
+        else:
+            farms.append(('m-%03d' % k, 'owner1', LP1, 'uusd', 10, 0, 1, ep - 1, ep + 5))
+    return farms
+
+
+def _replay_s6(m):
+    ep = m['epoch']
+    n = _LIMITS[m.get('_choices', {}).get('param:farm_limit', 0)]
+    kind = _S6_KINDS[m['_choices']['kind']]
+    farms = _s6_farms(n, kind, ep)
+    return {'now_s': m['now_s'], 'farms': farms, 'counters': {'farm': 3},
+            'mints': [('farm_manager', [('uusd', 10 * len(farms))]), ('creator', [('uusd', m['reward']), ('uom', 1000)])],
+            'config': {'create_farm_fee': {'denom': 'uom', 'amount': '1000'}, 'max_concurrent_farms': n},
+            'txs': [('creator', _farm_msg('create', params=_params_json('uusd', m['reward'], ep + 1, ep + 11)), [('uom', 1000), ('uusd', m['reward'])])]}
+
+
+@obligation('C11', 'S6.limit_above_the_default_listing_page', entries=['execute', 'create_farm', 'get_farms_by_lp_denom', 'is_farm_expired', 'close_farms'], kind='S',
+            statement='with max_concurrent_farms = N above the default page of the farm listing: an LP token with N live farms gets no further farm; with N-1 it gets exactly one; '
+                      'with N farms of which the last listed has expired, that one is closed (refund to its owner) and the new farm is created',
+            bounds='N in {12, 11, 37, 100} (quick tier: one of them by seed), farms with fixed budgets, symbolic reward / time', covers=['refused', 'created'],
+            replay=fm_replay(lambda m: _replay_s6(m)))
+def s6(I):
+    I.set_hint(dict(HINT, epoch=100, now_s=100 * DAY + 5))
+    now, ep, b = _world(I)
+    I.assume(ep >= 70)
+    n = I.param('farm_limit', _LIMITS)
+    kind = _S6_KINDS[I.choose(3, 'kind')]
+    fm_config(I, fee=coin_v('uom', 1000), max_concurrent=n)
+    fl = _s6_farms(n, kind, ep)
+    for (ident, owner, lp, rd, funded, claimed, rate, start, end) in fl:
+        put_farm(I, farm(ident, owner, lp, rd, funded, claimed, rate, simp(start), simp(end)))
+    b.set(FM, 'uusd', 10 * len(fl))
+    reward = I.sym('reward', lo=1000, hi=U128 // 2)
+    b.set('creator', 'uusd', reward)
+    b.set('creator', 'uom', 1000)
+    pre = b.snapshot()
+    ch = Chain(I, CONTRACTS_FM)
+    st, resp = ch.execute('creator', FM, manage_farm('Create', params=farm_params(LP1, coin_v('uusd', reward), simp(ep + 1), simp(ep + 11))),
+                          [coin_v('uom', 1000), coin_v('uusd', reward)])
+    I.observe('status', 'ok' if st == 'ok' else 'err')
+    observe_farm(I, 'f-4')
+    observe_farm(I, fl[-1][0])
+    observe_balances(I, b, [(FM, 'uusd'), ('creator', 'uusd'), ('owner2', 'uusd')])
+    ms = I.world.store(FM).get('farms')
+    if st != 'ok':
+        I.cover('refused')
+        I.check('creation_below_the_limit_accepted', kind == 'full')
+        return
+    I.cover('created')
+    I.check('creation_refused_at_the_configured_limit', kind != 'full')
+    I.check('at_most_max_concurrent_farms', len(ms.entries) <= n)
+    I.check('new_farm_recorded_with_full_reward', get_farm(I, 'f-4') is not None and I.values_eq(get_farm(I, 'f-4').get('farm_asset').get('amount'), reward))
+    if kind == 'full_last_expired':
+        I.check('expired_farm_closed', get_farm(I, fl[-1][0]) is None)
+        I.check('expired_farm_refunded_to_its_owner', smt.Eq(b.get('owner2', 'uusd'), pre.get('owner2', 'uusd') + 10))
